@@ -203,11 +203,15 @@ func (msg Message) Generate(w io.Writer, settings GenerateSettings) {
 
 func writeMessageFieldUnmarshaller(name string, typ FieldType, w *iohelp.ErrorWriter, settings GenerateSettings, depth int) {
 	if typ.Array != nil {
-		writeLineWithTabs(w, "%RECV = make([]%TYPE, iohelp.ReadUint32(r))", depth, name, typ.Array.goString(settings))
+		// see writeStructFieldUnmarshaller: the announced length is not trusted
+		laName := arrayLengthName(settings)
+		writeLineWithTabs(w, laName+" := iohelp.ReadUint32(r)", depth)
 		if typ.Array.Simple == typeByte {
-			writeLineWithTabs(w, "r.Read(%RECV)", depth, name)
+			writeLineWithTabs(w, "%RECV = iohelp.ReadBytes(r, "+laName+")", depth, name)
 		} else {
-			writeLineWithTabs(w, "for i := range %RECV {", depth, name)
+			writeLineWithTabs(w, "%RECV = make([]%TYPE, iohelp.PreallocLen("+laName+"))", depth, name, typ.Array.goString(settings))
+			writeLineWithTabs(w, "for i := 0; uint32(i) < "+laName+" && r.Err == nil; i++ {", depth, name)
+			writeLineWithTabs(w, "\t%RECV = iohelp.EnsureLen(%RECV, i, "+laName+")", depth, name)
 			writeMessageFieldUnmarshaller("("+name+")[i]", *typ.Array, w, settings, depth+1)
 			writeLineWithTabs(w, "}", depth)
 		}
